@@ -21,7 +21,16 @@ from .mir import T, Cst, Agg, Ref, SeqV, DiscV, Place, V, to_term, Event, Outcom
 
 MAX_DEPTH = 4
 
-NOISE = re.compile(r"^drop$|core::fmt::|^Arguments::<|::type_name::<|tynm::|^std::hint::|must_use::<|core::panicking::panic_fmt|^panic_fmt$|eprint|std::io::")
+# (ResourceId::new::<X>() and TypeId::of::<X>() are pure and have one canonical value per X: the value is what counts)
+NOISE = re.compile(r"^(world::)?ResourceId::new::<|^TypeId::of::<|^drop$|core::fmt::|^Arguments::<|::type_name::<|tynm::|^std::hint::|must_use::<|core::panicking::panic_fmt|^panic_fmt$|eprint|std::io::")
+
+
+def canon_name(callee):
+    """`x.into()` resolves through std's blanket impl to `From::from`: one spelling for both"""
+    m = re.match(r'^<(.+) as Into<(.+)>>::into$', callee)
+    if m:
+        return '<%s as From<%s>>::from' % (m.group(2), m.group(1))
+    return callee
 
 
 def closure_loc(kind):
@@ -29,10 +38,15 @@ def closure_loc(kind):
     return kind[len('closure@'):] if kind.startswith('closure@') else None
 
 
+def fn_key(f):
+    return (re.sub(r':\d+:\d+: \d+:\d+', '', f.impl_header), f.short)
+
+
 class Program:
-    def __init__(self, fns, known_names):
+    def __init__(self, fns, known_names, other_keys=None):
         self.fns = fns
-        self.known = known_names          # short names of functions the baseline has (never inlined: specs know them)
+        self.known = known_names          # short names of functions the baseline has (not inlined: specs know them) ...
+        self.other_keys = other_keys      # ... unless the program it is compared with has no such function (helper renamed / moved)
         self.by_closure = {}
         self.by_short = {}
         for f in fns:
@@ -46,15 +60,20 @@ class Program:
         """crate-local function for a callee string like `DispatcherBuilder::<'_, '_>::helper` or `helper::<H>`"""
         c = re.sub(r'::<[^()]*>$', '', callee)          # trailing generic args
         name = c.split('::')[-1]
-        if not re.match(r'^\w+$', name) or name in self.known:
+        if not re.match(r'^\w+$', name):
             return None
-        cands = self.by_short.get(name, [])
+        cands = [f for f in self.by_short.get(name, []) if '{closure#' not in f.name]
+        # the path in front of the name must be compatible with where the function lives
+        owner = re.sub(r"::<.*?>", '', '::'.join(c.split('::')[:-1]))
+        if owner:
+            last = owner.split('::')[-1]
+            if not re.match(r'^\w+$', last):
+                return None
+            cands = [f for f in cands if re.search(r'(?<![\w])%s(?![\w])' % re.escape(last), f.impl_header + ' ' + f.name)]
         if len(cands) != 1:
             return None
         f = cands[0]
-        # the path in front of the name must be compatible with where the function lives
-        owner = re.sub(r"::<.*?>", '', '::'.join(c.split('::')[:-1]))
-        if owner and owner.split('::')[-1] not in (f.impl_header + ' ' + f.name):
+        if name in self.known and (self.other_keys is None or fn_key(f) in self.other_keys):
             return None
         return f
 
@@ -103,7 +122,7 @@ class CanonExec(M.Exec):
     def rename_callee(self, callee):
         for k, v in getattr(self, 'tysubst', {}).items():
             callee = re.sub(r'(?<![\w:])%s(?![\w])' % re.escape(k), v, callee)
-        return callee
+        return canon_name(callee)
 
     def inline(self, fn, argvals, st, done, tysubst=None):
         """Runs `fn` as a nested frame from state st. Returns [(state, value)] for returning paths; diverging /
@@ -147,7 +166,7 @@ class CanonExec(M.Exec):
             if fn is not None:
                 return self.inline(fn, [Agg('closure@' + mloc.group(1), [])] + list(args), st, done)
         if isinstance(f, Cst) and f.text.startswith('fn '):
-            callee = f.text[3:]
+            callee = canon_name(f.text[3:])
             fn = self.program.resolve(callee)
             if fn is not None:
                 return self.inline(fn, list(args), st, done)
@@ -243,6 +262,26 @@ class CanonExec(M.Exec):
                 states = nxt
             return out
         # Option / Result combinators
+        m = re.match(r"^TypeId::of::<(.*)>$", c)
+        if m and not argv:
+            return [(st, T(M.f_fld(M.id_of(m.group(1)), 0)))]
+        # is_some / is_none / is_ok / is_err: the branch a `match` on the receiver takes
+        m = re.match(r"^(Option|Result)::<.*?>::(is_some|is_none|is_ok|is_err)$", c)
+        if m and len(argv) == 1 and isinstance(argv[0], Ref):
+            try:
+                v = self.read(argv[0].place, st)
+            except Exception:
+                v = None
+            if v is not None:
+                yes, no = ('Some', 'None') if m.group(1) == 'Option' else ('Ok', 'Err')
+                sy, _py, sn, _pn = self.split(v, st, yes, no)
+                pos = m.group(2) in ('is_some', 'is_ok')
+                out = []
+                if sy is not None:
+                    out.append((sy, Cst('true' if pos else 'false')))
+                if sn is not None:
+                    out.append((sn, Cst('false' if pos else 'true')))
+                return out
         m = re.match(r"^(Option|Result)::<.*?>::(map|and_then|unwrap_or_else|map_or_else|unwrap_or|ok|ok_or|unwrap|expect|is_some|is_none)(::<.*>)?$", c)
         if m and argv:
             ty, meth = m.group(1), m.group(2)
